@@ -28,7 +28,8 @@ CONSTANTS MaxOps,      \* bound on the number of actions in a behaviour
           Spares,      \* set of spare capacities of argument slices
           Extras,      \* growth slack explored on reallocation (subset of 0..1)
           Variant,     \* "code" | "prepend-nocopy" | "replace-nocopy" | "append-arg-first" | "replace-inplace"
-          EmitHist     \* TRUE in the generation configuration
+          EmitHist,    \* TRUE in the generation configuration
+          EmitFilter   \* "all" | "snap": only behaviours in which a result of All() is held across a Replace
 
 VARIABLES heap, d, args, shadow, model, fresh, hist, snap
 
@@ -188,5 +189,6 @@ TypeOK == /\ d.len <= d.cap
 
 -----------------------------------------------------------------------------
 (* behaviour emission for replay (generation configuration only) *)
-Emit == (EmitHist /\ Len(hist) = MaxOps) => PrintT("BEH " \o ToJson(hist))
+HeldAcrossReplace == \E j \in DOMAIN hist : hist[j].op = "All" /\ \E k \in (j + 1)..Len(hist) : hist[k].op = "Replace" /\ hist[k].arg # 0
+Emit == (EmitHist /\ Len(hist) = MaxOps /\ (EmitFilter = "all" \/ HeldAcrossReplace)) => PrintT("BEH " \o ToJson(hist))
 =============================================================================
